@@ -3,7 +3,7 @@
 // Contracts for the deductive verifier in /verif (comment-only: adds no declarations).
 package main
 
-//@ use strings nethttp fmt oauth2 neturl time ssh crypto errors x509 keymasterd_jose pwauth
+//@ use strings nethttp fmt oauth2 neturl time ssh crypto errors x509 keymasterd_jose pwauth cfssl
 
 // ---- C17: post-login redirects stay on the keymaster origin ------------------------------------
 //@ pure func noControlBytes(s string) bool = (forallIdx j int :: 0 <= j && j < len(s) ==> s[j] >= 0x20 && s[j] != 0x7f)
@@ -81,7 +81,11 @@ package main
 
 // Evidence predicates: uninterpreted; each one is introduced only by the postcondition of the function that
 // performs the corresponding check, whose own contract (below) says what was checked.
-//@ ghost func ipCertUser(state *RuntimeState, chains [][]*x509.Certificate, remoteAddr string, user string) bool
+// verdicts of the netblock test (lib/certgen) and of the automation-user lookup (uninterpreted here)
+//@ ghost func ipInCertNetblocks(cert *x509.Certificate, remoteAddr string) bool
+//@ ghost func automationUser(state *RuntimeState, user string) bool
+// "the leaf of the first verified chain names `user`, the peer address lies inside its netblocks, `user` is an automation identity and its key is not deny-listed"
+//@ opaque func ipCertUser(state *RuntimeState, chains [][]*x509.Certificate, remoteAddr string, user string) bool = len(chains) > 0 && len(chains[0]) > 0 && user == chains[0][0].Subject.CommonName && ipInCertNetblocks(chains[0][0], remoteAddr) && automationUser(state, user) && !deniedFP(state, keyFP(chains[0][0].PublicKey))
 //@ ghost func passwordAccepted(checker pwauth.PasswordAuthenticator, user string, password string) bool
 //@ ghost var ghostPwTokens int
 
@@ -117,7 +121,12 @@ package main
 //@   loop 2 (userPubKeyFP string, rangeindex int) invariant (forall j int :: 0 <= j && j <= rangeindex ==> userPubKeyFP != state.Config.DenyTrustData.KeyDenyFPsshSha256[j])  #C06.km-deny-scan @C06
 //@ func (*RuntimeState).getUsernameIfIPRestricted
 //@   results user, notBefore, userErr, err
-//@   ensures userErr == nil && err == nil ==> ipCertUser(state, VerifiedChains, r.RemoteAddr, user)
+//@   requires len(VerifiedChains) > 0 && len(VerifiedChains[0]) > 0
+//@   reveal ipCertUser deniedFP
+//@   ensures userErr == nil && err == nil ==> ipCertUser(state, VerifiedChains, r.RemoteAddr, user)            #C06.ip-cert @C06,C11
+//@   loop 1 (userPubKeyFP string, rangeindex int) invariant (forall j int :: 0 <= j && j <= rangeindex ==> userPubKeyFP != state.Config.DenyTrustData.KeyDenyFPsshSha256[j])  #C06.ip-deny-scan @C06
+//@ func (*RuntimeState).isAutomationUser
+//@   assume ret1 == nil ==> ret0 == automationUser(state, username)
 //@ func (*RuntimeState).checkPasswordAttemptLimit
 //@   inline always
 //@   ghostset ghostPwTokens int = ghostPwTokens + 1 if ret0 == nil
